@@ -20,7 +20,9 @@ pub assume_specification [TokenReference::token] (t: &TokenReference) -> (r: &To
     ensures *r == tr_token(*t);
 pub assume_specification [TokenReference::symbol] (s: &str) -> (r: Result<TokenReference, full_moon::tokenizer::TokenizerErrorType>)
     ensures r is Ok,   // every literal passed by the formatter is a Lua symbol (class A; exercised by the test-suite)
-            r is Ok ==> !tok_open(r->Ok_0) && !tok_nl(r->Ok_0) && !tok_lc(r->Ok_0);   // a fresh symbol token has no trivia
+            r is Ok ==> !tok_open(r->Ok_0) && !tok_nl(r->Ok_0) && !tok_lc(r->Ok_0),   // a fresh symbol token has no comments
+            r is Ok ==> tr_token(r->Ok_0) == symbol_of_text(s@);                     // its token is the symbol the text spells (class A)
+pub uninterp spec fn symbol_of_text(s: Seq<char>) -> Token;   // the symbol token `TokenReference::symbol` lexes out of a text such as " + "
 pub assume_specification [ContainedSpan::tokens] (c: &ContainedSpan) -> (r: (&TokenReference, &TokenReference))
     ensures *r.0 == span_open(*c), *r.1 == span_close(*c);
 pub assume_specification [ContainedSpan::new] (a: TokenReference, b: TokenReference) -> (r: ContainedSpan)
